@@ -269,6 +269,9 @@ Definition new_points (N : nat) (bs : list (list cand)) := fill_loop prior_finit
    is isfinite(logP) & the log_q sanity flags, recorded per candidate as is_fin (lq c) *)
 Definition ins_keep (c : cand) : bool := inb c && is_fin (lp c) && is_fin (lq c).
 Definition ins_draw (N : nat) (bs : list (list cand)) := cat_loop ins_keep N [] bs.
+(* ImportanceFlowProposal.draw_from_flows (final-sample redraw: draw_final_samples evaluates the likelihood on what it
+   returns): ONE batch drawn from the prior and all the flows, the same three masks, everything that passes is returned *)
+Definition ins_from_flows (cs : list cand) : list cand := filter ins_keep cs.
 
 (* ---- the pool is handed out by popping indices from the end ----------------------------------------------- *)
 (* state of a populated proposal: the permutation still to be handed out *)
